@@ -157,7 +157,7 @@ func TestC18(t *testing.T) {
 		_ = os.RemoveAll(dir)
 	}
 
-	rapidRun(t, env, "inputs", env.Pick(32, 640), func(rt *rapid.T) {
+	rapidRun(t, env, "inputs", env.Pick(32, 320), func(rt *rapid.T) {
 		p := genSmallProg(rt)
 		files := p.Files()
 		input := pg.SetupPath
